@@ -25,7 +25,7 @@ E  lazy callables (coroutine functions, generator functions, async generators; a
    function / method / classmethod / staticmethod in both decorator orders; explicit
    decorator, typechecker=None, import hook): a call only CREATES an object, the body
    runs when it is driven (send / next / asend, by hand, no event loop).  ALL histories
-   of length <= 4 (quick) / <= 6 (thorough) over {ON, OFF, C, S} (C = call with a
+   of length <= 4 (quick) / <= 5 or 6 (thorough) over {ON, OFF, C, S} (C = call with a
    well-typed, an ill-typed and a non-binding argument list: three new objects; S = drive
    every live object one step), from a callable decorated while enabled and while
    disabled, plus a matrix of switch-timing templates (flip before the call, between
@@ -1752,8 +1752,10 @@ LAZY_HIST_QUICK = [
 
 def lazy_hist_combos(ctx):
     """-> [(combo, maxlen)]; both decoration-time switch states are run for each."""
-    ml = 4 if ctx.quick else 6
-    out = [((d, k, t, n), ml) for d, k, n in LAZY_HIST_QUICK for t in TCS]
+    if ctx.quick:
+        return [((d, k, t, n), 4) for d, k, n in LAZY_HIST_QUICK for t in TCS]
+    # thorough: length <= 6 for the three flavours as plain functions, <= 5 for everything else
+    out = [((d, k, t, n), 6 if (d == "deco" and k.endswith("_def") and n is None) else 5) for d, k, n in LAZY_HIST_QUICK for t in TCS]
     if ctx.thorough:
         seen = {c for c, _ in out}
         extra = [("deco", k, t, None) for k in LAZY_KINDS for t in TCS]
